@@ -36,6 +36,25 @@ def gen_cases(tier, seed):
     return cases
 
 
+def own_eos(name):
+    """The three equations of state written out here from their textbook forms (E0, B0, B0', V0) - the data handed to phonopy are generated
+    with THESE, never with phonopy's own functions (a dispatch that returns another form would otherwise generate and fit the same wrong curve)."""
+    def vinet(v, e0, b0, bp, v0):
+        x = (np.asarray(v, float) / v0) ** (1.0 / 3)
+        eta = 1.5 * (bp - 1.0)
+        return e0 + 9.0 * b0 * v0 / eta ** 2 * (1.0 - (1.0 - eta * (1.0 - x)) * np.exp(eta * (1.0 - x)))
+
+    def birch_murnaghan(v, e0, b0, bp, v0):
+        f_ = (v0 / np.asarray(v, float)) ** (2.0 / 3) - 1.0
+        return e0 + 9.0 * v0 * b0 / 16.0 * (f_ ** 3 * bp + f_ ** 2 * (6.0 - 4.0 * (f_ + 1.0)))
+
+    def murnaghan(v, e0, b0, bp, v0):
+        v = np.asarray(v, float)
+        return e0 + b0 * v / bp * ((v0 / v) ** bp / (bp - 1.0) + 1.0) - b0 * v0 / (bp - 1.0)
+
+    return {"vinet": vinet, "birch_murnaghan": birch_murnaghan, "murnaghan": murnaghan}[name]
+
+
 def richardson(f, x, h, order):
     """Central-difference derivative of given order (1,2,3) with Richardson extrapolation over h and h/2."""
 
@@ -60,10 +79,17 @@ def run_case(c):
         if len(viol) < 8:
             viol.append(dict(kind=kind, msg=msg, eos=c["eos"], **kw))
 
-    eos = get_eos(c["eos"])
+    eos_phonopy = get_eos(c["eos"])  # (the name arrives as a fresh string object, decoded from the case file - not an interned literal)
+    eos = own_eos(c["eos"])
     E0, B0, Bp, V0 = c["E0"], c["B0_GPa"] / EVAngstromToGPa, c["Bp"], c["V0"]
     if c["kind"] == "eos":
-        f = lambda v: eos(v, E0, B0, Bp, V0)  # noqa: E731
+        f = lambda v: eos_phonopy(v, E0, B0, Bp, V0)  # noqa: E731
+        # the function phonopy hands out under this name IS this equation of state (textbook form written out in the harness), over a wide range
+        vv = V0 * np.linspace(0.75, 1.3, 23)
+        dform = np.abs(eos_phonopy(vv, E0, B0, Bp, V0) - eos(vv, E0, B0, Bp, V0)).max()
+        obs["n_eos_form"] = 1
+        if dform > 1e-10 * max(abs(E0), B0 * V0):
+            bad("eos_form", "get_eos(%r) differs from the %s equation of state by %.3e eV over V/V0 in [0.75, 1.3] (E0 %.4g, B0 V0 %.4g)" % (c["eos"], c["eos"], dform, E0, B0 * V0))
         h = 2e-2 * V0
         e0 = f(V0)
         d1 = richardson(f, V0, h, 1)
